@@ -82,6 +82,7 @@ func LoadEngine(repo string, patterns []string) (*Engine, error) {
 	}
 	e.contracts = cs
 	e.indexFunctions()
+	gEng = e
 	return e, nil
 }
 
@@ -161,6 +162,9 @@ func (e *Engine) typeIDByName(name string, t ...types.Type) int {
 	e.mu.Lock()
 	defer e.mu.Unlock()
 	if id, ok := e.typeIDs[name]; ok {
+		if len(t) > 0 && e.typeByID[id] == nil {
+			e.typeByID[id] = t[0]
+		}
 		return id
 	}
 	id := len(e.typeIDs) + 1
@@ -228,7 +232,7 @@ func (e *Engine) implementsPred(x *Exec, tag string, iface types.Type) string {
 		x.sess.Decl("(declare-fun " + smtSym(name) + " (Int) Bool)")
 	}
 	_ = it
-	return "(" + smtSym(name) + " " + tag + ")"
+	return "(and (not (= " + tag + " 0)) (" + smtSym(name) + " " + tag + "))"
 }
 
 var pureMethodNames = map[string]bool{
@@ -333,13 +337,14 @@ func (e *Engine) safetyOrdinal(fn *ssa.Function, in ssa.Instruction, kind string
 // ---------- loops ----------
 
 type loop struct {
-	head       *ssa.BasicBlock
-	blocks     map[*ssa.BasicBlock]bool
-	ordinal    int
-	pos        token.Pos
-	modAllocs  []*ssa.Alloc
-	writesHeap bool
-	outerCells []*Cell
+	head        *ssa.BasicBlock
+	blocks      map[*ssa.BasicBlock]bool
+	ordinal     int
+	pos         token.Pos
+	modAllocs   []*ssa.Alloc
+	writesHeap  bool     // may write anything (call with unknown effects)
+	heapClasses []string // heap class prefixes written directly
+	outerCells  []*Cell
 }
 
 type loopInfo struct {
@@ -448,10 +453,18 @@ func (e *Engine) loopsOf(fn *ssa.Function) *loopInfo {
 							seen[a] = true
 							lp.modAllocs = append(lp.modAllocs, a)
 						}
+					} else if c := storeClass(i.Addr); c != "" {
+						lp.heapClasses = append(lp.heapClasses, c)
 					} else {
 						lp.writesHeap = true
 					}
-				case *ssa.MapUpdate, *ssa.Send, *ssa.Go:
+				case *ssa.MapUpdate:
+					if mt, ok := i.Map.Type().Underlying().(*types.Map); ok {
+						lp.heapClasses = append(lp.heapClasses, "M|"+typeKey(mt.Key())+"|"+typeKey(mt.Elem()))
+					} else {
+						lp.writesHeap = true
+					}
+				case *ssa.Send, *ssa.Go:
 					lp.writesHeap = true
 				case ssa.CallInstruction:
 					cc := i.Common()
@@ -482,6 +495,36 @@ func (e *Engine) loopsOf(fn *ssa.Function) *loopInfo {
 	e.loopCache[fn] = li
 	e.mu.Unlock()
 	return li
+}
+
+// storeClass: heap class prefix written by a store through addr ("" = unknown).
+func storeClass(addr ssa.Value) string {
+	switch a := addr.(type) {
+	case *ssa.FieldAddr:
+		pt, ok := a.X.Type().Underlying().(*types.Pointer)
+		if !ok {
+			return ""
+		}
+		st, ok := pt.Elem().Underlying().(*types.Struct)
+		if !ok {
+			return ""
+		}
+		// nested field of a field address: prefix by the outermost struct is hard to know; use the direct one
+		if _, nested := a.X.(*ssa.FieldAddr); nested {
+			return ""
+		}
+		return "F|" + typeKey(pt.Elem()) + "." + st.Field(a.Field).Name()
+	case *ssa.IndexAddr:
+		switch t := a.X.Type().Underlying().(type) {
+		case *types.Slice:
+			return "E|" + typeKey(t.Elem())
+		case *types.Pointer:
+			if at, ok := t.Elem().Underlying().(*types.Array); ok {
+				return "E|" + typeKey(at.Elem())
+			}
+		}
+	}
+	return ""
 }
 
 func rootAlloc(v ssa.Value) *ssa.Alloc {
